@@ -6,10 +6,11 @@
 (*   state   host   : which enclosing proof (H0 none, H1 goal at <<2>>, H2 goal at <<1,1>> inside a block)             *)
 (*           nodes  : the DAG (X02_Defs); the proof term is the LAST node                                             *)
 (*           sub    : the subproof flag;  lines : the export;  whole : the enclosing proof after embedding             *)
-(*   actions AddLeaf, AddAtom, AddUnary, AddBinary (a non-leaf node cites the latest node: every DAG of <= MaxNodes     *)
-(*           nodes in which each node is used is built in some order), Export(sub), Embed                               *)
-(*   property (invariants): the clauses of X02_Defs on `lines` and `whole`, and LinesCheck / WholeChecks: every line   *)
-(*           is the application of its rule to the sequents of the lines it cites (the reference checker)              *)
+(*   actions AddLeaf, AddAtom, AddUnary, AddBinary (premises = any earlier nodes), Export(sub) (enabled when every node  *)
+(*           is used and the nodes are numbered in depth-first order: each DAG of <= MaxNodes nodes once), Embed         *)
+(*   property (invariants): the clauses of X02_Defs on `lines` and `whole`, and WholeChecks: every line is the         *)
+(*           application of its rule to the sequents of the lines it cites, a stated gap, or a block proved by its     *)
+(*           last line (the reference checker, lib/Kernel.tla)                                                        *)
 (* With Emit = TRUE every behaviour is printed at Embed and replayed on the real code (harness/drivers/x02.py).        *)
 EXTENDS X02_Defs, Kernel, Json
 CONSTANTS MaxNodes, HostIds, Emit, WithSubst
@@ -86,22 +87,22 @@ AddAtom == /\ Building
            /\ \E a \in HostAtoms(host) : nodes' = Append(nodes, Node("atom", AN, <<>>, a.th, a.id)) /\ Viable(nodes')
            /\ UNCHANGED <<host, phase, sub, lines, whole>>
 AddUnary == /\ Building /\ nodes # <<>>
-            /\ \E x \in UnaryInst :
-                 LET th == ApplyRule(x.rule, x.arg, <<nodes[Root].th>>) IN
+            /\ \E x \in UnaryInst : \E p \in 1..Root :
+                 LET th == ApplyRule(x.rule, x.arg, <<nodes[p].th>>) IN
                  /\ Keep(th)
-                 /\ (x.rule = "substitution" => sP \in UNION { SVarsOf(y) : y \in nodes[Root].th.h \cup {nodes[Root].th.c} })
-                 /\ nodes' = Append(nodes, Node(x.rule, x.arg, <<Root>>, th, <<>>)) /\ Viable(nodes')
+                 /\ (x.rule = "substitution" => sP \in UNION { SVarsOf(y) : y \in nodes[p].th.h \cup {nodes[p].th.c} })
+                 /\ nodes' = Append(nodes, Node(x.rule, x.arg, <<p>>, th, <<>>)) /\ Viable(nodes')
             /\ UNCHANGED <<host, phase, sub, lines, whole>>
 AddBinary == /\ Building /\ nodes # <<>>
-             /\ \E r \in BinaryRules : \E p \in 1..Root : \E first \in BOOLEAN :
-                  LET prems == IF first THEN <<Root, p>> ELSE <<p, Root>>
+             /\ \E r \in BinaryRules : \E p \in 1..Root : \E q \in 1..Root :
+                  LET prems == <<p, q>>
                       th == ApplyRule(r, AN, <<nodes[prems[1]].th, nodes[prems[2]].th>>) IN
                   /\ Keep(th)
                   /\ nodes' = Append(nodes, Node(r, AN, prems, th, <<>>)) /\ Viable(nodes')
              /\ UNCHANGED <<host, phase, sub, lines, whole>>
-\* the proof term is exported when every node built is part of it
+\* the proof term is exported when every node built is part of it and the numbering is the canonical one
 Export(s) == /\ phase = "build" /\ nodes # <<>> /\ nodes[Root].rule # "atom"
-             /\ XReach(nodes, Root) = 1..Root
+             /\ XPostOrder(nodes, Root) = [i \in 1..Root |-> i]
              /\ XApplicable(GoalOf(host), s)
              /\ sub' = s /\ lines' = XRefExport(nodes, Root, GoalOf(host), s) /\ phase' = "exported"
              /\ UNCHANGED <<host, nodes, whole>>
